@@ -102,7 +102,7 @@ size_t gp_bytes_find_first_of(
 {
     const uint8_t*const hay = haystack;
     for (size_t i = start; i < haystack_size; i++)
-        if (strchr(char_set, hay[i]) != NULL)
+        if (hay[i] != '\0' && strchr(char_set, hay[i]) != NULL)
             return i;
     return GP_NOT_FOUND;
 }
@@ -115,7 +115,7 @@ size_t gp_bytes_find_first_not_of(
 {
     const uint8_t*const hay = haystack;
     for (size_t i = start; i < haystack_size; i++)
-        if (strchr(char_set, hay[i]) == NULL)
+        if (hay[i] == '\0' || strchr(char_set, hay[i]) == NULL)
             return i;
     return GP_NOT_FOUND;
 }
